@@ -25,6 +25,7 @@ func init() {
 			"(R-C08-RING) a stripe taken from the pool is put back on every path and a batch accepted by the consumer is replaced by a fresh slice before further use; " +
 			"(R-C08-CONFINED) the applier-local map is captured only by closures invoked synchronously by the applier; " +
 			"(R-C08-NOPANIC) no explicit panic/log.Fatal/os.Exit is reachable from the listed API (constructors excepted), *Metrics methods guard nil, metric stripe index stays inside the allocation, shard index is taken modulo the allocation length, KeyToHash covers the Key constraint. " +
+			"(R-C08-WAITFOR) wait-for structure: the applier and the policy goroutine block on nothing but their own select and the done answer (transitively over everything they call synchronously, bound callbacks included); every blocking operation reachable from an API method is one of a frozen table (Wait/Del: send setBuf; Wait: receive on its marker; Clear: stop/done) whose completing arm exists in the consumer; no sleep/timer/WaitGroup wait is reachable. " +
 			"NOT decided: full deadlock freedom through channel capacities (liveness of the applier), runtime internals (sync.Pool, timers), unsafe code in z.",
 		Run: runC08,
 	})
@@ -117,6 +118,9 @@ func runC08(c *Ctx) {
 	L.Rule("R-C08-RING", "stripe returned to the pool on every path; accepted batch replaced by a fresh slice", 3)
 	L.Rule("R-C08-CONFINED", "applier-local state is captured only by synchronously invoked closures", 1)
 	L.Rule("R-C08-NOPANIC", "no reachable explicit panic; nil-guarded Metrics; indexes within allocations; KeyToHash exhaustive", 8)
+	L.Rule("R-C08-WAITFOR", "consumer goroutines block only on their own select and stop answer; every blocking wait reachable from the API is in the frozen wait-for table", 17)
+
+	waitForRule(c, "R-C08-WAITFOR")
 
 	lc := newLockCtx(P, "ristretto")
 	inPkg := func(fn *ssa.Function) bool { return fn.Pkg == P.Pkgs["ristretto"] }
